@@ -5,6 +5,7 @@ import (
 	"math/rand"
 	"os"
 	"path/filepath"
+	"sort"
 	"strings"
 )
 
@@ -289,6 +290,7 @@ func Generate(rng *rand.Rand, opt Opts) *Lineage {
 	for t := range g.feat {
 		g.l.Feat = append(g.l.Feat, t)
 	}
+	sort.Strings(g.l.Feat)
 	return g.l
 }
 
